@@ -283,6 +283,8 @@ def _samedoc(ck, p, byk):
             from_user = any("user_dictionary" in arg_fields(pv, f.blocks[o[1]]["t"]["args"][0]) for o in arg_roots(f, pv, cmd[1]["args"][0]) if o[0] == "call") or "user_dictionary" in arg_fields(pv, cmd[1]["args"][0])
             dict_assigned = any(result_of(f, pv, s["rv"]["op"], cmd[0]) for _, _, s in a_dict if s["rv"]["k"] == "use")
             lg_from_dict = "dictionary" in arg_fields(pv, new[1]["args"][0]) or any("dictionary" in arg_fields(pv, f.blocks[o[1]]["t"]["args"][0]) for o in arg_roots(f, pv, new[1]["args"][0]) if o[0] == "call")
+            # ... or from the very value construct_merged_dict returned (stored into self.dictionary as well)
+            lg_from_dict = lg_from_dict or (dict_assigned and any(o[0] == "call" and o[1] == cmd[0] for o in arg_roots(f, pv, new[1]["args"][0])))
             lg_assigned = any(result_of(f, pv, s["rv"]["op"], new[0]) for _, _, s in a_lg if s["rv"]["k"] == "use")
             saved_local = save[0][1]["dest"][0]
             merged_saved = pv.mut_base.get(place_of(mrg[1]["args"][1])[0]) == saved_local if place_of(mrg[1]["args"][1]) else False
